@@ -387,7 +387,9 @@ func (b *builder) spell(f *File, scope, target string) string {
 
 var mapKeys = []string{"int32", "int64", "uint32", "uint64", "sint32", "sint64", "fixed32", "fixed64", "sfixed32", "sfixed64", "bool", "string"}
 
-func packable(ty string) bool { return ty != "string" && ty != "bytes" && ty != "message" && ty != "group" && ty != "map" }
+func packable(ty string) bool {
+	return ty != "string" && ty != "bytes" && ty != "message" && ty != "group" && ty != "map"
+}
 
 func (b *builder) fields(f *File, m *Message) {
 	t := b.t
